@@ -85,6 +85,17 @@ Section HkdfFacts.
     rewrite firstn_length, hkdf_blocks_length. pose proof (nblocks_covers L). lia.
   Qed.
 
+  Theorem hkdf_expand_total prk info L :
+    ((L <= 255 * HashLen)%nat ->
+       exists o, hkdf_expand H B HashLen prk info L = Some o /\ length o = L) /\
+    ((255 * HashLen < L)%nat -> hkdf_expand H B HashLen prk info L = None).
+  Proof.
+    split.
+    - intros HL. rewrite hkdf_expand_stream by exact HL.
+      eexists. split; [reflexivity|]. rewrite firstn_length, hkdf_blocks_length. lia.
+    - apply hkdf_expand_too_long.
+  Qed.
+
   (* prefix law *)
   Theorem hkdf_expand_prefix prk info n m o : (n <= m)%nat ->
     hkdf_expand H B HashLen prk info m = Some o ->
